@@ -23,7 +23,9 @@ RULE = ("union workload: (a) hostile templates x random extreme values: INT/LONG
         "distinct program texts; non-trivial = accepted by the analyser (executed).")
 ASSUMPTIONS = ["edited programs (family e) that run longer than 20 s are cut off and counted, not judged: an edit "
                "can turn a loop into an endless one; likewise an edit that makes a recursion deeper than the stack "
-               "(the property bounds recursion depth) is counted, not judged",
+               "(the property bounds recursion depth) is counted, not judged, and so is an edit that asks for an "
+               "array larger than the memory of the machine (an environment limit, reported by the "
+               "sanitizer's allocator)",
                "value-UB reports (signed overflow, float-cast overflow, shifts) are counted, not violations: "
                "C12 lists signals, memory corruption and raw exceptions",
                "recursion depth <= 100 and <= 12 qubits (the property's stated bounds); stack limit 1 GiB",
@@ -281,6 +283,9 @@ def classify_and_report(ctx, tag, src, r, case):
         key = cls[1]
         if case.get("kind") == "edited" and key.startswith("asan:stack-overflow"):
             ctx.count("edited_programs_recursing_past_the_bound")   # the property bounds recursion depth
+            return False
+        if case.get("kind") == "edited" and key.startswith("asan:allocator") and "out of memory" in r.stderr:
+            ctx.count("edited_programs_asking_for_more_memory_than_there_is")   # e.g. string[2147483647] v;
             return False
     elif cls[0] == "signal":
         key = "signal:%d:%s" % (cls[1], "<-".join(core._bloch_frames(r.stderr)) or "?")
